@@ -62,7 +62,10 @@ ASSUMPTIONS = [
 ]
 
 FIELD_CLASSES = {0: ScalarField, 1: VectorField, 2: Tensor2Field}
-DTYPES = {"f8": np.float64, "f4": np.float32, "c16": np.complex128, "i8": np.int64, "c8": np.complex64}
+# ">f8", ">c16": non-native byte order (data read from big-endian files; after missed seed C14-7: the
+# serialised attributes stored the dtype name, which does not carry the byte order)
+DTYPES = {"f8": np.float64, "f4": np.float32, "c16": np.complex128, "i8": np.int64, "c8": np.complex64,
+          ">f8": np.dtype(">f8"), ">c16": np.dtype(">c16")}
 SYM = ("polar", "sph", "cyl")
 
 DECIMALS = [0.1, 0.2, 0.3, 0.7, 1.1, 2.5, 1 / 3, 1e-3, 123.456, 0.05, 4.35, 1e3, 3.0, 1.0, 2.0,
@@ -239,7 +242,7 @@ LABELS = st.one_of(
     st.text(max_size=6),
 )
 
-DTYPE_NAMES = st.sampled_from(["f8", "f8", "c16", "c16", "f4", "i8", "c8"])
+DTYPE_NAMES = st.sampled_from(["f8", "f8", "c16", "c16", "f4", "i8", "c8", ">f8", ">c16"])
 
 
 def field_spec():
@@ -254,7 +257,7 @@ def field_spec():
 def make_data(seed, shape, dtype):
     if dtype == "i8":
         return gg.rng_array(seed, shape, dist="int").astype(np.int64)
-    if dtype in ("c16", "c8"):
+    if dtype in ("c16", "c8", ">c16"):
         return gg.rng_array(seed, shape, dtype="c16").astype(DTYPES[dtype])
     return gg.rng_array(seed, shape).astype(DTYPES[dtype])
 
@@ -499,7 +502,7 @@ def is_nt(grid_case, fspecs):
     hole = "radius" in spec and spec["radius"][0] > 0
     return bool(hole or any(spec["periodic"])
                 or (spec["cls"] in SYM and any(fs["rank"] >= 1 for fs in fspecs))
-                or any(fs["dtype"] in ("c16", "c8") for fs in fspecs))
+                or any(fs["dtype"] in ("c16", "c8", ">c16") for fs in fspecs))
 
 
 def check_field_roundtrip(case):
